@@ -1,6 +1,7 @@
 CONSTANTS
   MaxReports = 4
   Blocking = FALSE
+  DropStale = TRUE
 SPECIFICATION Spec
-INVARIANT NoWedge
+INVARIANTS NoWedge NoPhantom
 CHECK_DEADLOCK TRUE
